@@ -142,10 +142,117 @@ def show(q, v, e, how="str", frm=None, kept=None):
 
 FIRST_STEP = None
 
+# ------------------------------------------------------------------ rejected requests (faults)
+# A request the library REJECTS (it raises; the caller -- a notebook cell -- catches and goes on) is not
+# a configuration: the pair printed afterwards must be rounded by the configuration in force before
+# it.  A fault is [kind, argument-name]; it is sent after the configuration of its step has been
+# reached and before the judged print.
+FAULT_ARGS = {   # name -> (object, "invalid" = not a positive integer by any reading | "maybe" = has a meaning)
+    "0": (0, "invalid"), "-1": (-1, "invalid"), "-3": (-3, "invalid"), "2.5": (2.5, "invalid"),
+    "0.0": (0.0, "invalid"), "'3'": ("3", "invalid"), "None": (None, "invalid"), "nan": (float("nan"), "invalid"),
+    "[2]": ([2], "invalid"), "-2.0": (-2.0, "invalid"),
+    # integral values in other number types: the library may accept them with their meaning (then the
+    # step is skipped and counted) or reject them (then nothing may have changed)
+    "3.0": (3.0, "maybe"), "np.int64(4)": ("np.int64", "maybe"), "Fraction(2)": ("Fraction", "maybe"),
+}
+FAULT_FIGS = ["value-fn", "error-fn", "value-obj", "error-obj", "figs-attr"]
+FAULT_OTHER = [["style-fn", "'bogus'"], ["style-fn", "7"], ["style-fn", "None"], ["style-attr", "'Scientific'"],
+               ["style-attr", "2"], ["unit-style", "'bogus'"], ["error-method", "'bogus'"], ["mc-size", "0"],
+               ["mc-size", "2.5"], ["plot-dims", "(0, 1)"], ["bad-measurement", "negative-uncertainty"],
+               ["bad-measurement", "string-uncertainty"], ["bad-unit", "'m/*s'"]]
+OTHER_ARGS = {"'bogus'": "bogus", "7": 7, "None": None, "'Scientific'": "Scientific", "2": 2, "0": 0, "2.5": 2.5,
+              "(0, 1)": (0, 1)}
+
+
+def fault_text(f):
+    kind, arg = f
+    return {"value-fn": "q.set_sig_figs_for_value({})", "error-fn": "q.set_sig_figs_for_error({})",
+            "value-obj": "q.get_settings().set_sig_figs_for_value({})",
+            "error-obj": "q.get_settings().set_sig_figs_for_error({})",
+            "figs-attr": "q.get_settings().sig_fig_value = {}", "style-fn": "q.set_print_style({})",
+            "style-attr": "q.get_settings().print_style = {}", "unit-style": "q.set_unit_style({})",
+            "error-method": "q.set_error_method({})", "mc-size": "q.set_monte_carlo_sample_size({})",
+            "plot-dims": "q.set_plot_dimensions({})", "bad-measurement": "q.Measurement(1.0, <{}>)",
+            "bad-unit": "q.Measurement(1.0, 0.1, unit={})"}[kind].format(arg)
+
+
+def gen_faults(rng, mode=None):
+    """1-2 requests that must be rejected.  Most are about the number of significant figures -- through
+    both setters (the one of the mode in force and the OTHER one), function and settings-object form,
+    and the attribute; the rest are rejected requests to other settings and constructors"""
+    out = []
+    for _ in range(rng.choice([1, 1, 2])):
+        if rng.random() < 0.75:
+            kinds = list(FAULT_FIGS)
+            if mode in ("error", "auto"):
+                kinds += ["value-fn", "value-obj"]        # the setter of the OTHER mode
+            if mode in ("value", "auto"):
+                kinds += ["error-fn", "error-obj"]
+            names = list(FAULT_ARGS)
+            out.append([rng.choice(kinds), rng.choice(names[:10] * 3 + names[10:])])
+        else:
+            out.append(list(rng.choice(FAULT_OTHER)))
+    return out
+
+
+def apply_fault(q, f):
+    """-> "rejected" (the library raised), "accepted" (no exception although the request is invalid by
+    the harness's own reading: not a positive integer / no such style), "accepted-with-a-meaning" """
+    kind, arg = f
+    verdict = "invalid"
+    if kind in FAULT_FIGS:
+        x, verdict = FAULT_ARGS[arg]
+        if x == "np.int64":
+            import numpy as np
+            x = np.int64(4)
+        elif x == "Fraction":
+            x = F(2)
+    elif kind == "bad-measurement":
+        x = -0.5 if arg == "negative-uncertainty" else "0.1"
+    elif kind == "bad-unit":
+        x = "m/*s"
+    else:
+        x = OTHER_ARGS[arg]
+    st = q.get_settings()
+    try:
+        if kind == "value-fn":
+            q.set_sig_figs_for_value(x)
+        elif kind == "error-fn":
+            q.set_sig_figs_for_error(x)
+        elif kind == "value-obj":
+            st.set_sig_figs_for_value(x)
+        elif kind == "error-obj":
+            st.set_sig_figs_for_error(x)
+        elif kind == "figs-attr":
+            st.sig_fig_value = x
+        elif kind == "style-fn":
+            q.set_print_style(x)
+        elif kind == "style-attr":
+            st.print_style = x
+        elif kind == "unit-style":
+            q.set_unit_style(x)
+        elif kind == "error-method":
+            q.set_error_method(x)
+        elif kind == "mc-size":
+            q.set_monte_carlo_sample_size(x)
+        elif kind == "plot-dims":
+            q.set_plot_dimensions(x)
+        elif kind == "bad-measurement":
+            q.Measurement(1.0, x)
+        elif kind == "bad-unit":
+            str(q.Measurement(1.0, 0.1, unit=x))
+    except Exception:  # noqa: BLE001
+        return "rejected"
+    return "accepted" if verdict == "invalid" else "accepted-with-a-meaning"
+
+
+FAULT_STATS = collections.Counter()
+
 
 def session(q, steps):
     """print the steps one after the other in THIS interpreter (printing must not depend on what
-    was printed or configured before, so the order must not matter); returns the texts"""
+    was printed or configured before, so the order must not matter); returns the texts.  A step may
+    carry `faults`: rejected requests sent between reaching its configuration and its print."""
     global FIRST_STEP
     outs = []
     last = None
@@ -158,6 +265,17 @@ def session(q, steps):
         if key != last or route != "reset":
             configure(q, *key, route=route)
             last = key
+        skip = None
+        for f in c.get("faults") or []:
+            r = apply_fault(q, f)
+            FAULT_STATS["rejected-request:{}:{}".format(f[0], r)] += 1
+            FAULT_STATS["rejected-request:argument:{}".format(f[1])] += 1
+            if r == "accepted-with-a-meaning":
+                skip = f            # the library gave the request a meaning: another configuration
+            last = None             # (the next step reaches its configuration anew)
+        if skip is not None:
+            outs.append("SKIP accepted " + fault_text(skip))
+            continue
         outs.append(show(q, c["v"], c["e"], c.get("how", "str"), c.get("from"), kept))
     q.reset_default_configuration()
     return outs
@@ -294,7 +412,7 @@ def run(ctx, cases, ref=False, outs=None):
                 "n": c["n"]}
         lines.append(dict(base, cmd="print_model"))
         lines.append(dict(base, cmd="print_model", v=dec_ratio(c["v"]), e=dec_ratio(c["e"])))
-        p = None if s.startswith(("EXC", "UNPARSED")) else parse(s)
+        p = None if s.startswith(("EXC", "UNPARSED", "SKIP")) else parse(s)
         parsed.append(p)
         if p is not None:
             lines.append(dict(base, cmd="print_spec", text=s))
@@ -314,7 +432,7 @@ def run(ctx, cases, ref=False, outs=None):
             i += 1
         inp = {"v": c["v"], "e": c["e"], "style": c["style"], "mode": c["mode"], "n": c["n"],
                "how": c.get("how", "str"), "v_exact": ratio(c["v"]), "e_exact": ratio(c["e"])}
-        for k in ("route", "from", "history", "scenario"):
+        for k in ("route", "from", "history", "scenario", "faults"):
             if c.get(k) is not None:
                 inp[k] = c[k]
         if c.get("batch_index") is not None:
@@ -347,12 +465,21 @@ def run(ctx, cases, ref=False, outs=None):
             skipped += 1          # more than 12 printed digits: outside the statement's domain
             dist["skipped:>12 digits"] += 1
             continue
+        if s.startswith("SKIP"):
+            skipped += 1          # a request of the step was accepted with a meaning of its own
+            dist["skipped:request accepted with a meaning"] += 1
+            continue
+        if c.get("faults"):
+            dist["print judged after rejected request(s)"] += 1
+            dist["print judged after rejected request(s):mode in force " + c["mode"]] += 1
         dist["cfg:{}/{}".format(c["style"], c["mode"])] += 1
         dist["n:{}".format(c["n"])] += 1
         dist["how:" + c.get("how", "str")] += 1
         if c.get("scenario"):
             dist["history-route:" + c.get("route", "reset")] += 1
         cls = "{}:{}".format(c["style"], c["mode"])
+        if c.get("faults"):
+            cls += ":after-rejected-request"
         if s.startswith("UNPARSED"):
             failures.append({"signature": "c09:wrapper-format:" + c.get("how", "str"),
                              "kind": "disagreement", "what": "repr()/str(array) no longer wrap the "
@@ -390,7 +517,10 @@ def run(ctx, cases, ref=False, outs=None):
             why = classify(c, p, spec)
             failures.append({"signature": "c09:spec:{}:{}".format(why, cls), "kind": "violation",
                              "oracle": "independent",
-                             "what": "printed pair is not the correctly rounded pair ({})".format(why),
+                             "what": "printed pair is not the correctly rounded pair ({})".format(why) + (
+                                 " -- the configuration in force was reached, then these requests were sent "
+                                 "(rejected ones configure nothing): " + "; ".join(
+                                     fault_text(f) for f in c["faults"]) if c.get("faults") else ""),
                              "input": inp, "impl": s, "impl_parsed": p, "expected": m["text"],
                              "spec": spec, "clause": "PrintedOK"})
             continue
@@ -500,14 +630,18 @@ def make_cases(ctx, n_pairs, dist):
                     how = "repr"
                 elif r < 0.08:
                     how = "array"
-                cases.append({"v": v, "e": e, "style": style, "mode": mode, "n": n, "how": how})
+                c = {"v": v, "e": e, "style": style, "mode": mode, "n": n, "how": how}
+                if 0.08 <= r < 0.11:
+                    c["faults"] = gen_faults(ctx.rng, mode)   # a rejected request right before the print
+                cases.append(c)
     cases.sort(key=lambda c: (c["style"], c["mode"], c["n"]))
     return cases
 
 
 # ------------------------------------------------------------------ histories
-SCENARIOS = ["mode-switch", "style-switch", "n-switch", "repeat", "neighbour-pair", "mixed"]
-STEP_KEYS = ("v", "e", "style", "mode", "n", "how", "route", "from")
+SCENARIOS = ["mode-switch", "style-switch", "n-switch", "repeat", "neighbour-pair", "mixed",
+             "rejected-request", "rejected-request"]
+STEP_KEYS = ("v", "e", "style", "mode", "n", "how", "route", "from", "faults")
 
 
 def step_of(c):
@@ -536,7 +670,7 @@ def gen_history(rng, dist):
     steps = []
     for i in range(rng.randint(2, 5)):
         if i:
-            what = kind if kind not in ("mixed", "neighbour-pair") else rng.choice(
+            what = kind if kind not in ("mixed", "neighbour-pair", "rejected-request") else rng.choice(
                 ["mode-switch", "style-switch", "n-switch", "repeat"])
             if what == "mode-switch":
                 mode = rng.choice([m for m in MODES if m != mode])
@@ -549,6 +683,11 @@ def gen_history(rng, dist):
               "how": rng.choice(HOWS_HISTORY), "route": rng.choice(ROUTES)}
         if st["how"] == "edited":
             st["from"] = list(rng.choice(pairs + [(v2, e2)]))
+        # FAULTS: rejected requests between reaching the configuration and the print (always in the
+        # scenario made for them, now and then in the others)
+        if (kind == "rejected-request" and (i or rng.random() < 0.5)) or rng.random() < 0.12:
+            st["faults"] = gen_faults(rng, mode)
+            dist["history-step:with rejected request(s) before the print"] += 1
         steps.append(st)
     dist["history-scenario:" + kind] += 1
     return kind, steps
@@ -672,11 +811,14 @@ def correspond(ctx, ref=False, boost=1):
         d2.update(d)
         samples += sm
     dist.update(d2)
+    dist.update(FAULT_STATS)
+    FAULT_STATS.clear()
     def size(f):
         inp = f.get("input")
         if not isinstance(inp, dict):
             return 0
-        return len(str(inp["v"])) + len(str(inp["e"])) + 40 * len(inp.get("history") or [])
+        return (len(str(inp["v"])) + len(str(inp["e"])) + 40 * len(inp.get("history") or [])
+                + 10 * len(inp.get("faults") or []))
     # per signature two representatives: the smallest case printed in the batch and the smallest step
     # of a history scenario (it knows what was printed before it)
     groups = collections.OrderedDict()
